@@ -22,6 +22,14 @@ CHECKS = {
             "Tolerance 1e-8*(|y|*||J^-1|| + |x|) + A*||J^-1|| with J from float64 autograd / one-sided FD at special points; rows "
             "with ||J^-1|| > 1e6, saturating chains, or conditioner outputs beyond |10| are inconclusive (counted).",
             "DESIGN.md 3/C02"),
+    "C09": ("Hypothesis-generated spline parameters/boxes/tail bounds evaluated on sorted grids of constructed knots, ulp "
+            "neighbours, end-points and tail junction; order/range/end-point/continuity/identity-tail invariants",
+            "Exploration: every spline family x 1-8 bins x generated boxes/tail bounds x parameter regimes (incl. exactly zero and "
+            "+-8 logits) x float32/float64, ~600 constructed inputs per case in both directions; checks end-points, exact range, "
+            "monotonicity along the grid, continuity across knots and the tail junction, bitwise identity tails.",
+            "Knot locator only aims inputs; inverse direction checked for order/range/end-points with slope-scaled tolerance "
+            "(its accuracy is C02/C19); boxes whose bins fall below the dtype's resolution are skipped (counted by label).",
+            "DESIGN.md 3/C09"),
     "C20": ("exhaustive small-shape enumeration + Hypothesis generation against numpy reference models; bit-level "
             "argument-unchanged comparison",
             "Exploration: every utils helper on an exhaustive grid of small shapes/integer arguments and on generated "
